@@ -20,7 +20,7 @@ from ..model import AnalysisError, ClassInfo, FunctionInfo, Model, is_main_guard
 from ..paths import Event, Path, PathEnumerator, find_calls
 from ..report import Report
 from ..resolve import CallGraph
-from ..sym import (number, FALSE, NONE, TRUE, Evaluator, Frame, Term, Unsupported, atoms_of, show, subst, subterms, sym, t_and, t_cmp, t_not,
+from ..sym import (lin, number, FALSE, NONE, TRUE, Evaluator, Frame, Term, Unsupported, atoms_of, show, subst, subterms, sym, t_and, t_cmp, t_not,
                    t_or, satisfiable)
 from .common import call_arg, call_args, effect_calls, is_call_of, lifted_to_callers, loop_of, node_iterator_domain, norm_stmt, strip_identity_wrappers
 
@@ -32,6 +32,8 @@ POINTER_CALLS = {"point_towards", "release_pointer", "update_set_incoming_pointe
 def check(model: Model, rep: Report, tier: str):
     from .common import depth_bound_assumption
     depth_bound_assumption(model, rep)
+    with rep.isolated():
+        l12(model, rep)
     from .common import instance_state_rule
     with rep.isolated():
         instance_state_rule(model, rep, "C02.L11", "every graph lists its own nodes: containers that graph / composite classes change through self are bound per instance, "
@@ -608,6 +610,45 @@ def l6(model: Model, rep: Report):
 
 
 # ---------------------------------------------------------------------------------------------
+def l12(model: Model, rep: Report, rule: str = "C02.L12"):
+    """'Empty' means: no node besides the root."""
+    rep.rule(rule, "IGraphNavigation.empty_graph is true exactly for a graph without operation nodes: `the only leaf is the root` (len(leaf_nodes) == 1 and leaf_nodes[0].is_root), "
+                   "or, equivalently, a branch depth of 0 -- a wider test (depth <= 1) calls a single layer of operations empty, and everything guarded by it (the duration "
+                   "shortcut of a block, the chain link of repeated copies) treats such a block as nothing")
+    from fractions import Fraction as _F
+    K = model.cls("IGraphNavigation")
+    f = K.resolve("empty_graph")
+    if f is None:
+        raise AnalysisError("IGraphNavigation.empty_graph vanished")
+    try:
+        v = Evaluator(model, inline_methods=False).value_of(f, self_cls=K)
+    except Unsupported as e:
+        raise AnalysisError(f"empty_graph: {e}")
+    s_ = sym(f.self_name)
+    leafs = None
+    ok, why = None, ""
+    # leaf form
+    if v[0] == "and" and len(v[1]) == 2:
+        a, b = v[1]
+        for x, y in ((a, b), (b, a)):
+            if x[0] == "eq" and y[0] == "attr" and y[2] == "is_root" and y[1][0] == "sub" and y[1][2] == lin({}, _F(0)):
+                coll = y[1][1]
+                if x == t_cmp("==", ("call", "len", (coll,), ()), lin({}, _F(1))) and coll[0] == "attr" and coll[1] == s_ and "leaf" in coll[2]:
+                    ok = True
+    # depth form: depth == 0 / depth < 1 / not depth > 0
+    depth = ("call", ("attr", s_, "get_branch_depth"), (), ())
+    if ok is None and subterms(v, lambda y: y == depth):
+        zero_forms = [t_cmp("==", depth, lin({}, _F(0))), t_cmp("<", depth, lin({}, _F(1))), t_cmp("<=", depth, lin({}, _F(0)))]
+        if v in zero_forms:
+            ok = True
+        else:
+            ok, why = False, f"{show(v)} is not `depth == 0`"
+    if ok is None:
+        raise AnalysisError(f"empty_graph: {show(v)[:120]} is neither the leaf form nor a depth test (shape not recognised)")
+    rep.check(ok, rule, "IGraphNavigation.empty_graph", f.loc, found=show(v)[:140], required="len(leaf_nodes) == 1 and leaf_nodes[0].is_root  (== branch depth 0)",
+              what="a graph that holds operations is reported empty: " + why + "; a block of parallel operations then has duration 0 and followers start inside it", detail="empty")
+
+
 def l7(model: Model, rep: Report):
     rep.rule("C02.L7", "add_operation / add_sub_circuit: the object handed to _structure.add, appended to _added_operations and returned is one and the same; "
                        "IDeclarativeCircuit.add routes every sub-circuit (declarative circuit or composite operation) to the copying path")
